@@ -136,7 +136,24 @@ func run(p *props.Property, tier string, seed int64, repo, root string, only map
 			}
 		}
 	}
+	alphaOK := true
+	if tier == "thorough" && len(only) == 0 {
+		var rep []string
+		var note string
+		alphaOK, rep, note = alphaSelfTest(p, repo, root)
+		ctx.Extra["selftest_alpha"] = map[string]any{"what": "every local variable, parameter and receiver of the property's packages renamed (x → x_ar) in an in-memory copy; the rules must report nothing on it",
+			"silent": alphaOK, "reported_rules": rep, "note": note}
+		if alphaOK {
+			fmt.Printf("selftest %s: alpha-renamed variant: silent %s\n", p.ID, note)
+		} else {
+			fmt.Printf("SELFTEST-ALPHA property=%s the rules report %v on a behaviour-preserving renaming of locals (%s)\n", p.ID, rep, note)
+		}
+	}
 	code = ctx.Finish(p.Explanation, p.Assumptions)
+	if code == 0 && !alphaOK {
+		fmt.Printf("UNDECIDED property=%s some rules depend on the names of local variables; their silence on today's tree is not trusted\n", p.ID)
+		return 3
+	}
 	if code == 0 && misses > 0 {
 		fmt.Printf("UNDECIDED property=%s the rules no longer report %d of their own seeded positive examples; a silent run proves nothing\n", p.ID, misses)
 		return 3
